@@ -287,6 +287,50 @@ pub fn featdigest(tier: Tier, seed: u64) {
     // with if-then-else shaped and with repeated conditions: no oracle, the parent compares the hashes between builds
     {
         use crate::src_adf::Source;
+        // conditions over four statements that mention more variables than their longest path tests (an if-then-else
+        // below a fourth variable) and have more than two models / counter-models: all 6^4 assignments of 6 shapes
+        {
+            use crate::oracle::Fm;
+            let a = Fm::Atom;
+            let ite = |i: usize, t: usize, e: usize| Fm::bin(1, Fm::bin(0, a(i), a(t)), Fm::bin(0, Fm::not(a(i)), a(e)));
+            let shapes: Vec<Fm> = vec![
+                Fm::bin(0, a(3), ite(0, 1, 2)),
+                Fm::bin(1, a(3), ite(1, 2, 0)),
+                Fm::bin(4, a(0), ite(1, 2, 3)),
+                Fm::bin(1, Fm::bin(0, a(3), Fm::bin(0, a(0), a(1))), Fm::bin(0, Fm::not(a(3)), a(2))),
+                Fm::bin(0, Fm::not(a(2)), ite(3, 0, 1)),
+                ite(0, 1, 2),
+            ];
+            let mut h: u64 = 0xcbf29ce484222325;
+            let mut mix = |x: u64| {
+                h = (h ^ x).wrapping_mul(0x100000001b3);
+            };
+            for k in 0..6usize.pow(4) {
+                let fms: Vec<Fm> = (0..4).map(|i| shapes[k / 6usize.pow(i as u32) % 6].clone()).collect();
+                let text = crate::fam::adf_text_fm(&fms, &crate::fam::names(4));
+                let parser = adf_bdd::parser::AdfParser::default();
+                if parser.parse()(&text).is_err() {
+                    mix(0xdead);
+                    continue;
+                }
+                match guard(|| {
+                    let adf = adf_bdd::adf::Adf::from_parser(&parser);
+                    let mut v: Vec<u64> = vec![];
+                    for (m, f) in adf.facet_count(&adf.ac) {
+                        v.extend([m.cmodels as u64, m.models as u64, f.0 as u64, f.1 as u64]);
+                    }
+                    for i in 0..4 {
+                        v.push(adf.bdd.passive_var_impact(adf_bdd::datatypes::Var(i), &adf.ac) as u64);
+                        v.push(adf.bdd.active_var_impact(adf_bdd::datatypes::Var(i), &adf.ac) as u64);
+                    }
+                    v
+                }) {
+                    Ok(v) => v.into_iter().for_each(&mut mix),
+                    Err(_) => mix(0xbad),
+                }
+            }
+            println!("FD-RAW if-then-else_below_a_fourth_variable {:016x}", h);
+        }
         let sources = [Source::Tern(4, seed % 16, 16), Source::Literal3, Source::FamAllWriters(crate::fam::fam_a(2))];
         for src in sources {
             let mut h: u64 = 0xcbf29ce484222325;
